@@ -232,3 +232,66 @@ EQUIVALENT = {
 }
 for _n in EQUIVALENT:
     M.pop(_n, None)
+
+
+# ---- Behaviour-preserving refactors: every check must stay silent on them (exit 0, or 2 when a
+# rule can no longer be evaluated) -- never exit 1.  Run with: selftest/run_mutants.py --refactors
+REFACTORS = {}
+
+
+def rf(name, edits):
+    REFACTORS[name] = (["C%02d" % i for i in range(1, 21)], edits)
+
+
+rf("rf-write-then-arm-retry-timers", [
+    (P, "        if request.interval:    # Handle timeouts for QoS 1 and 2\n            request.alarm = self.callLater(request.interval(len(request.encoded)), self._publishError, request)\n", ""),
+    (P, "            log.debug(\"==> {packet:7} (id={request.msgId:04x} qos={request.qos} dup={dup} retain={request.retain} topic={request.topic})\", packet=\"PUBLISH\", request=request, dup=dup)\n        self.transport.write(str(request.encoded) if PY2 else bytes(request.encoded))\n",
+        "            log.debug(\"==> {packet:7} (id={request.msgId:04x} qos={request.qos} dup={dup} retain={request.retain} topic={request.topic})\", packet=\"PUBLISH\", request=request, dup=dup)\n        self.transport.write(str(request.encoded) if PY2 else bytes(request.encoded))\n        if request.interval:    # Handle timeouts for QoS 1 and 2\n            request.alarm = self.callLater(request.interval(len(request.encoded)), self._publishError, request)\n"),
+    (P, "        reply.alarm = self.callLater(reply.interval(), self._pubrelError, reply)\n        log.debug(\"==> {packet:7} (id={reply.msgId:04x} dup={dup})\", packet=\"PUBREL\", reply=reply, dup=dup)\n        self.transport.write(str(reply.encoded) if PY2 else bytes(reply.encoded))\n",
+        "        log.debug(\"==> {packet:7} (id={reply.msgId:04x} dup={dup})\", packet=\"PUBREL\", reply=reply, dup=dup)\n        self.transport.write(str(reply.encoded) if PY2 else bytes(reply.encoded))\n        reply.alarm = self.callLater(reply.interval(), self._pubrelError, reply)\n"),
+    (P, "        request.alarm = self.callLater(interval, self._subscribeError, request)\n        log.debug(\"==> {packet:7} (id={request.msgId:04x} dup={dup})\", packet=\"SUBSCRIBE\", request=request, dup=dup)\n        self.transport.write(str(request.encoded) if PY2 else bytes(request.encoded))\n",
+        "        log.debug(\"==> {packet:7} (id={request.msgId:04x} dup={dup})\", packet=\"SUBSCRIBE\", request=request, dup=dup)\n        self.transport.write(str(request.encoded) if PY2 else bytes(request.encoded))\n        request.alarm = self.callLater(interval, self._subscribeError, request)\n"),
+    (P, "        request.alarm = self.callLater(interval, self._unsubscribeError, request)\n        log.debug(\"==> {packet:7} (id={request.msgId:04x} dup={dup})\", packet=\"UNSUBSCRIBE\", request=request, dup=dup)\n        self.transport.write(str(request.encoded) if PY2 else bytes(request.encoded))\n",
+        "        log.debug(\"==> {packet:7} (id={request.msgId:04x} dup={dup})\", packet=\"UNSUBSCRIBE\", request=request, dup=dup)\n        self.transport.write(str(request.encoded) if PY2 else bytes(request.encoded))\n        request.alarm = self.callLater(interval, self._unsubscribeError, request)\n"),
+])
+rf("rf-suback-cancel-before-delete", [
+    (P, "            del self.factory.windowSubscribe[self.addr][response.msgId]\n            request.alarm.cancel()\n", "            request.alarm.cancel()\n            del self.factory.windowSubscribe[self.addr][response.msgId]\n"),
+    (P, "            del self.factory.windowUnsubscribe[self.addr][response.msgId]\n            request.alarm.cancel()\n", "            request.alarm.cancel()\n            del self.factory.windowUnsubscribe[self.addr][response.msgId]\n"),
+])
+rf("rf-ordered-dict-windows", [
+    (F, "from collections import deque\n", "from collections import deque, OrderedDict\n"),
+    (F, "        v = self.windowPublish.get(addr, dict() )\n", "        v = self.windowPublish.get(addr, OrderedDict() )\n"),
+    (F, "        v = self.windowPubRelease.get(addr, dict() )\n", "        v = self.windowPubRelease.get(addr, OrderedDict() )\n"),
+])
+rf("rf-closing-cancels-alarms-before-keepalive", [
+    (B, "        self.state = self.CLOSING\n        self._stopKeepalive()\n        self.doDisconnected()\n", "        self.state = self.CLOSING\n        self.doDisconnected()\n        self._stopKeepalive()\n"),
+])
+rf("rf-inline-makeid-and-rename-handlers", [
+    (P, "self._publishError, request)", "self._onPublishTimeout, request)"),
+    (P, "    def _publishError(self, request):", "    def _onPublishTimeout(self, request):"),
+    (B, "        def doPingError():", "        def pingTimedOut():"),
+    (B, "            self._pingReq.alarm.cancel()\n            doPingError()\n            return\n", "            self._pingReq.alarm.cancel()\n            pingTimedOut()\n            return\n"),
+    (B, "self.callLater(self._pingReq.keepalive, doPingError)", "self.callLater(self._pingReq.keepalive, pingTimedOut)"),
+])
+rf("rf-pdu-encode-via-join", [
+    (D, "    encoded = bytearray(2)\n    encoded.extend(bytearray(string, encoding='utf-8'))\n    l = len(encoded)-2\n    if(l > 65535):\n        raise StringValueError(l)\n    encoded[0] = l >> 8\n    encoded[1] = l & 0xFF\n    return encoded\n",
+        "    data = string.encode('utf-8')\n    l = len(data)\n    if(l > 65535):\n        raise StringValueError(l)\n    return bytearray((l >> 8, l & 0xFF)) + bytearray(data)\n"),
+])
+rf("rf-reactor-calllater-direct", [
+    (P, "        request.alarm = self.callLater(interval, self._subscribeError, request)\n", "        request.alarm = reactor.callLater(interval, self._subscribeError, request)\n"),
+    (P, "        reply.alarm = self.callLater(reply.interval(), self._pubrelError, reply)\n", "        reply.alarm = reactor.callLater(reply.interval(), self._pubrelError, reply)\n"),
+])
+rf("rf-buildprotocol-setdefault", [
+    (F, "        v = self.queuePublishTx.get(addr, deque())\n        self.queuePublishTx[addr] = v\n", "        self.queuePublishTx.setdefault(addr, deque())\n"),
+    (F, "        v = self.windowPubRx.get(addr, dict())\n        self.windowPubRx[addr] = v\n", "        self.windowPubRx.setdefault(addr, {})\n"),
+])
+rf("rf-refill-explicit-loop", [
+    (P, "        while queue and (not queue[0].msgId or len(self.factory.windowPublish[cnx]) < self._window):\n            request = queue.popleft()\n",
+        "        while True:\n            if not queue:\n                break\n            head = queue[0]\n            if head.msgId and len(self.factory.windowPublish[cnx]) >= self._window:\n                break\n            request = queue.popleft()\n"),
+])
+rf("rf-keepalive-calllater-chain", [
+    (B, "                self._pingReq.timer     = task.LoopingCall(self.ping)\n                self._pingReq.timer.start(request.keepalive)\n",
+        "                self._pingReq.timer     = _Ticker(self, request.keepalive)\n                self._pingReq.timer.start()\n"),
+    (B, "log = Logger(namespace='mqtt')\n\n\n# ---------------------------------------\n# Base State Class",
+        "log = Logger(namespace='mqtt')\n\n\nclass _Ticker(object):\n    '''Calls protocol.ping() now and then every period seconds (drift-free)'''\n    def __init__(self, protocol, period):\n        self.protocol, self.period, self.call, self.n = protocol, period, None, 0\n    def start(self):\n        self.t0 = reactor.seconds()\n        self._tick()\n    def _tick(self):\n        self.n += 1\n        self.call = self.protocol.callLater(max(0, self.t0 + self.n*self.period - reactor.seconds()), self._tick)\n        self.protocol.ping()\n    def stop(self):\n        if self.call is not None and self.call.active():\n            self.call.cancel()\n        self.call = None\n\n\n# ---------------------------------------\n# Base State Class"),
+])
